@@ -373,7 +373,7 @@ E2E_RULES['detect'] = ('generated histories extended by plumbing with 2-6 tokens
 
 E2E_COUNTS['quick']['twice'] = 150
 E2E_COUNTS['thorough']['twice'] = 3000
-E2E_RULES['twice'] = ('every generated (history, option set) pair is built into a repository (plain, fresh clone with an origin, bare), copied, and the real CLI is run on both copies with identical options: once plainly, once under a different TZ, LANG, LC_ALL, LANGUAGE and TMPDIR, with niceness 5-14, pinned to one CPU, from a path with blanks, and with a PATH shim for git that delays every child and re-chunks all piped I/O through dd (chunk sizes 1-65536; modes chunk / slow / buffer-all-output); for-each-ref, HEAD, commit-map, ref-map and fast-export.filtered of the two runs are compared byte for byte. Non-trivial: both runs succeed.')
+E2E_RULES['twice'] = ('every generated (history, option set) pair is built into a repository (plain, fresh clone with an origin, bare), copied, and the real CLI is run on both copies with identical options: once plainly, once under a different TZ, LANG, LC_ALL, LANGUAGE and TMPDIR, with niceness 5-14, pinned to one CPU, from a path with blanks, and with a PATH shim for git that delays every child and re-chunks all piped I/O through dd (chunk sizes 1-65536; modes chunk / slow / buffer-all-output); a fifth of the pairs on a detached HEAD, a sixth with two annotated tags that collide under --tag-rename and carry messages of 3 KB or 140 KB, most with a textual date option; for-each-ref, HEAD, commit-map, ref-map and fast-export.filtered of the two runs are compared byte for byte. Non-trivial: both runs succeed.')
 
 
 @runner
